@@ -415,10 +415,10 @@ Lemma last_snoc : forall (q : path) x d, last (q ++ [x]) d = x.
 Proof. intros q x d. apply last_last. Qed.
 
 (* parent->RemoveChild(name, this, true) *)
-Lemma prim_remove_node_Mid : forall st v, Mid st -> Mid (prim_remove_node st v).
+Lemma remove_child_rec_Mid : forall st v, Mid st -> Mid (remove_child_rec st v).
 Proof.
-  intros st v [M H6]. unfold prim_remove_node.
-  destruct (has_node (st_tree st) v && (2 <=? length v)) eqn:Eg; [|split; assumption].
+  intros st v [M H6]. unfold remove_child_rec.
+  destruct (has_node (st_tree st) v) eqn:Eg; [|split; assumption].
   destruct (drain_all_spec (subtree_paths (st_tree st) v) st M) as (M1 & I1 & K1 & S1 & D1).
   set (st1 := fold_left drain_node (subtree_paths (st_tree st) v) st) in *.
   destruct (prim_remove_entry_spec st1 (parent_of v) (last_name v) M1) as (M2 & I2 & K2 & S2).
@@ -451,6 +451,26 @@ Proof.
     intros q x Hx. simpl in Hx. unfold index_at in Hx at 1. rewrite lookup_delete_subtree in Hx.
     destruct (is_prefix v q); [inversion Hx|].
     apply S1. apply (S2 q x). exact Hx.
+Qed.
+
+Lemma prim_remove_node_Mid : forall st v, Mid st -> Mid (prim_remove_node st v).
+Proof.
+  intros st v HM. unfold prim_remove_node. destruct (2 <=? length v); [apply remove_child_rec_Mid|]; exact HM.
+Qed.
+
+Lemma prim_remove_entry_at_Mid : forall st p pos, Mid st -> Mid (prim_remove_entry_at st p pos).
+Proof.
+  intros st p pos [M H6]. unfold prim_remove_entry_at.
+  destruct (has_node (st_tree st) p) eqn:Eh; [|split; assumption].
+  destruct (has_node_lookup _ _ Eh) as [n Hl]. rewrite (node_at_lookup _ _ _ Hl).
+  destruct (remove_index_entry_at n pos) as [n' ops] eqn:Er.
+  pose proof (proj2 (mA_twf st M) p n Hl) as Wn.
+  destruct (remove_index_entry_at_spec _ _ _ _ _ Wn Er) as (W & R & _).
+  split; [eapply put_idx_MidA; eassumption|].
+  apply (I6_shrink st); [exact H6 | reflexivity|].
+  intros q x Hx. simpl in Hx. rewrite (index_at_set_node _ _ n) in Hx by exact Hl.
+  destruct (path_eqb p q) eqn:E; [|exact Hx]. apply path_eqb_eq in E. subst q. rewrite (index_at_lookup _ _ _ Hl).
+  eapply remove_index_entry_at_incl; eassumption.
 Qed.
 
 Lemma add_node_Mid : forall st q, Mid st -> Mid (with_tree st (add_node (st_tree st) q)).
@@ -813,6 +833,35 @@ Proof.
   split; [apply MidA_set_ipres; exact M3 | apply I6_set_ipres; exact X3].
 Qed.
 
+Lemma restore_Mid : forall fuel t0 st s src dstrel addidx, Mid st -> Mid (restore fuel t0 st s src dstrel addidx).
+Proof.
+  intros fuel t0. induction fuel as [|f IH]; intros st s src dstrel addidx HM; [exact HM|].
+  cbn [restore].
+  assert (Hfold : forall (g : name -> bool) (flag : bool) ks st', Mid st' ->
+            Mid (fold_left (fun st k => if g k then restore f t0 st s (src ++ [k]) (dstrel ++ [k]) flag else st) ks st')).
+  { intros g flag ks. induction ks as [|k ks IHk]; intros st' HM'; [exact HM'|]. simpl. apply IHk.
+    destruct (g k); [apply IH; exact HM' | exact HM']. }
+  assert (Hfold2 : forall (g : name -> bool) (flag : bool) ks st', Mid st' ->
+            Mid (fold_left (fun st k => if g k then st else restore f t0 st s (src ++ [k]) (dstrel ++ [k]) flag) ks st')).
+  { intros g flag ks. induction ks as [|k ks IHk]; intros st' HM'; [exact HM'|]. simpl. apply IHk.
+    destruct (g k); [exact HM' | apply IH; exact HM']. }
+  apply Hfold2. apply (Hfold (fun k => mem k (kids_of t0 src))). apply set_data_node_Mid. exact HM.
+Qed.
+
+Lemma drop_session_Inv : forall st s, Inv st -> Inv (drop_session st s).
+Proof.
+  intros st s (M & H6 & Hp). split; [|split; [exact H6 | exact Hp]].
+  assert (Hsub : forall s' p, subscribed (drop_session st s) s' p = if Nat.eqb s' s then false else subscribed st s' p).
+  { intros s' p. unfold subscribed. simpl. destruct (Nat.eqb s' s); reflexivity. }
+  constructor; simpl.
+  - apply (mA_twf st M).
+  - intros s' p Hs. rewrite Hsub in Hs. destruct (Nat.eqb s' s); [discriminate|]. apply (mA_sub st M s' p Hs).
+  - intros s' p Hs. rewrite Hsub in Hs. rewrite Hp. destruct (Nat.eqb s' s); [split; reflexivity|].
+    destruct (mA_unsub st M s' p Hs) as [H1 _]. split; [exact H1 | reflexivity].
+  - intros s' p. destruct (Nat.eqb s' s); [reflexivity | apply (mA_hist st M)].
+  - intros s' Hs'. destruct (Nat.eqb s' s); [reflexivity | apply (mA_n st M s' Hs')].
+Qed.
+
 (* ------------------------------------------------------------------ commands, steps, runs *)
 
 Definition cfg_ok (cfg : config) : Prop := fix_reorder_ipres cfg = true /\ fix_clone cfg = true.
@@ -840,6 +889,9 @@ Proof.
   - exact HM.
   - apply set_data_node_Mid; exact HM.
   - apply clone_Mid; assumption.
+  - destruct (has_node (st_tree st) src); [apply restore_Mid|]; exact HM.
+  - apply prim_remove_entry_at_Mid; exact HM.
+  - apply remove_child_rec_Mid; exact HM.
 Qed.
 
 Lemma flush_n : forall st, st_n (flush st) = st_n st.
@@ -847,8 +899,11 @@ Proof. intro st. unfold flush. destruct (fold_deliver_fields (st_pend st) (with_
 
 Lemma exec_Inv : forall cfg s st c, cfg_ok cfg -> Inv st -> Inv (exec cfg s st c).
 Proof.
-  intros cfg s st c Hc HI. unfold exec. destruct (s <? st_n st) eqn:E; [|exact HI].
-  apply Nat.ltb_lt in E. destruct (handle_Mid cfg st s c Hc HI E) as [M H6]. apply flush_Inv; assumption.
+  intros cfg s st c Hc HI. unfold exec. destruct ((s <? st_n st) && has_node (st_tree st) [NS s]) eqn:E; [|exact HI].
+  apply andb_true_iff in E. destruct E as [E _].
+  apply Nat.ltb_lt in E. destruct (handle_Mid cfg st s c Hc HI E) as [M H6].
+  pose proof (flush_Inv _ M H6) as HF.
+  destruct c; try exact HF. apply drop_session_Inv. exact HF.
 Qed.
 
 Lemma Inv_with_out : forall st o, Inv st -> Inv (with_out st o).
@@ -942,7 +997,7 @@ Theorem remove_drops_entry : forall st v, Mid st -> has_node (st_tree st) v = tr
 Proof.
   intros st v HM Hh Hl st'. pose proof (prim_remove_node_Mid st v HM) as HM'. fold st' in HM'.
   assert (Hgone : has_node (st_tree st') v = false).
-  { unfold st', prim_remove_node. rewrite Hh. replace (2 <=? length v) with true by (symmetry; apply Nat.leb_le; exact Hl).
+  { unfold st', prim_remove_node, remove_child_rec. rewrite Hh. replace (2 <=? length v) with true by (symmetry; apply Nat.leb_le; exact Hl).
     simpl. rewrite has_node_delete, is_prefix_refl. apply andb_false_r. }
   split; [exact Hgone|]. split; [|exact HM'].
   intro Hin. apply (twf_index_child _ _ _ (mA_twf _ (proj1 HM'))) in Hin.
